@@ -2,6 +2,7 @@ package udp
 
 import (
 	"context"
+	"errors"
 	"net"
 	"sync"
 	"time"
@@ -65,6 +66,9 @@ type Association struct {
 	cancel context.CancelFunc
 	closed bool
 }
+
+// errAssociationClosed is returned by Encrypt and Decrypt after Close.
+var errAssociationClosed = errors.New("association closed")
 
 // NewAssociation creates a new UDP association.
 func NewAssociation(streamID, requestID uint64, peerID identity.AgentID) *Association {
@@ -204,6 +208,12 @@ func (a *Association) Encrypt(plaintext []byte) ([]byte, error) {
 	a.mu.RLock()
 	defer a.mu.RUnlock()
 
+	// Close clears the session key; a datagram still in flight through the
+	// read loop must not fall back to the "no key" plaintext path then.
+	if a.closed {
+		return nil, errAssociationClosed
+	}
+
 	if a.SessionKey == nil {
 		return plaintext, nil
 	}
@@ -218,6 +228,10 @@ func (a *Association) Encrypt(plaintext []byte) ([]byte, error) {
 func (a *Association) Decrypt(ciphertext []byte) ([]byte, error) {
 	a.mu.RLock()
 	defer a.mu.RUnlock()
+
+	if a.closed {
+		return nil, errAssociationClosed
+	}
 
 	if a.SessionKey == nil {
 		return ciphertext, nil
